@@ -42,6 +42,9 @@ type c20Shared struct {
 	// move out of the way)
 	msmS []*Scalar
 	msmP []*Point
+	// a list of 2100 terms over the shared points (first batch of a run only: seconds under the race detector)
+	longS []*Scalar
+	longP []*Point
 	// what the reference model recovers from sigs[i] for ids 0..3 (compressed; nil: no key)
 	recWant [][4][]byte
 }
@@ -93,6 +96,12 @@ func buildShared(seed int64, batch int) *c20Shared {
 		}
 	}
 	defer func() {
+		if batch == 0 {
+			for i := 0; i < 2100; i++ {
+				s.longS = append(s.longS, s.scalars[i%len(s.scalars)])
+				s.longP = append(s.longP, s.points[(i*7+i/5)%len(s.points)])
+			}
+		}
 		s.msmS = []*Scalar{s.scalars[0], secp256k1.NewScalar(), s.scalars[1], s.scalars[2], secp256k1.NewScalarFromUint64(7), s.scalars[3]}
 		s.msmP = []*Point{s.points[0], s.points[1], secp256k1.NewIdentityPoint(), s.points[2], s.points[3], s.points[0]}
 	}()
@@ -347,6 +356,18 @@ func c20Call(s *c20Shared, rng *gen.Rng, force int) (name string, obj int, out [
 		k := 2 + rng.Intn(4)
 		c := new(Point).MultiScalarMultVartime(s.msmS[:k], s.msmP[:k]).CompressedBytes()
 		return "MultiScalarMult[Vartime](shared argument slices)", 100, append(append(a, b...), c...)
+	case 42:
+		// a LONG list (beyond where implementations switch to batched / bucketed algorithms) of
+		// the shared points, in the non-trivial representations they were built with, while the
+		// other goroutines read the same points: arguments are read-only operands
+		if len(s.longS) == 0 {
+			return "MultiScalarMultVartime(long shared list): skipped in this batch", 100, nil
+		}
+		a := new(Point).MultiScalarMultVartime(s.longS, s.longP).CompressedBytes()
+		for _, p := range s.points {
+			a = append(a, p.CompressedBytes()...)
+		}
+		return "MultiScalarMultVartime(long shared list)", 100, a
 	default:
 		nk, err := secec.NewPublicKeyFromPoint(s.points[pi])
 		if err != nil {
@@ -493,8 +514,8 @@ func runC20(r *mon.Run) {
 		// on the shared objects (package-level state set up on first use - a default written
 		// into a package-level options struct, a lazily keyed MAC - races exactly here).
 		shared := buildShared(r.Seed, batch)
-		first1c := make([][][]byte, c20Ops+1)
-		for op := 0; op <= c20Ops; op++ {
+		first1c := make([][][]byte, c20Ops+2)
+		for op := 0; op <= c20Ops+1; op++ {
 			first1c[op] = make([][]byte, G)
 			gate1c := make(chan struct{})
 			for g := 0; g < G; g++ {
@@ -509,8 +530,11 @@ func runC20(r *mon.Run) {
 			close(gate1c)
 			wg.Wait()
 		}
-		for op := 0; op <= c20Ops; op++ {
+		for op := 0; op <= c20Ops+1; op++ {
 			for g := 0; g < G; g++ {
+				if op == c20Ops+1 && g > 0 {
+					break // the long shared list: the same call for every goroutine
+				}
 				rng := gen.New(r.Seed, op, "C20", "first-kind", strconv.Itoa(batch), strconv.Itoa(g))
 				name, _, want := c20Call(shared, rng, op)
 				if !bytes.Equal(first1c[op][g], want) {
